@@ -11,39 +11,56 @@ Local Open Scope Z_scope.
    every token-level check of the receiver (tasters with the 2^31 and 2^(8*maxBytes) splits of the TRANSLATED sendToken,
    checkOpentype, setConstraint hand-down, list/set/dict "full" tests, tuple arity, the 6*maxLength text bound) accepts
    every token of the honest serialization and the very same object is delivered. *)
-Theorem C12_sender_accepts_receiver_delivers : forall c o,
+Theorem C12_sender_accepts_receiver_delivers : forall voc c o,
   wf c = true -> owf o = true -> c12_guard c o = true -> checkObject c o = true ->
-  recvw (Some c) (slice o) = RDeliver o.
+  recvw (Some c) (slice voc o) = RDeliver o.
 Proof. exact c12_main. Qed.
 Print Assumptions C12_sender_accepts_receiver_delivers.
 
+(* ... "no matter how Banana chooses to tokenize it": the same for EVERY serialization w of o (ser): with any connection
+   vocabulary voc (byte strings that are vocabulary words travel as VOCAB tokens whose header is the word's index, which the
+   tasters must not compare with maxLength), and with any number of repeated list/tuple/set/dict objects travelling as
+   OPEN reference (which must get through the checkToken/checkOpentype of EVERY constraint that accepts the object) *)
+Theorem C12_every_serialization : forall voc c o w,
+  wf c = true -> owf o = true -> c12_guard c o = true -> checkObject c o = true -> ser voc o w ->
+  recvw (Some c) w = RDeliver o.
+Proof. exact c12_ser. Qed.
+Print Assumptions C12_every_serialization.
+
+(* a repeated container sent as a reference needs no guard at all: it is accepted by every slot whose constraint accepts
+   the object (also under ChoiceOf, where the first occurrence is not) *)
+Theorem C12_reference_accepted : forall c o,
+  checkObject c o = true -> refable o = true -> recvw (Some c) (WRef o) = RDeliver o.
+Proof. exact ref_ok. Qed.
+Print Assumptions C12_reference_accepted.
+
 (* the same for a whole call of a one-argument method: callRemote's outbound checkAllArgs, the wire, ArgumentUnslicer,
    the inbound checkAllArgs in _doCall, and the invocation with the same object *)
-Theorem C12_call_delivered : forall c o,
+Theorem C12_call_delivered : forall voc c o,
   wf c = true -> owf o = true -> c12_guard c o = true ->
-  forall p k, send_call (ms1 c) [o] [] = Some (p, k) -> recv_call (ms1 c) p k = CInvoke [o] [].
+  forall p k, send_call voc (ms1 c) [o] [] = Some (p, k) -> recv_call (ms1 c) p k = CInvoke [o] [].
 Proof. exact c12_call1. Qed.
 Print Assumptions C12_call_delivered.
 
 (* The full statement (without c12_guard) is FALSE on the current tree; each excluded region has its witness: *)
 Theorem C12_refuted_choice :        (* D7a, oracle/choiceof-container-drops-connection *)
-  checkObject d7a_ctr (OList [OInt 1; OInt 2]) = true /\ recvw (Some d7a_ctr) (slice (OList [OInt 1; OInt 2])) = RAbort.
+  checkObject d7a_ctr (OList [OInt 1; OInt 2]) = true /\ recvw (Some d7a_ctr) (slice [] (OList [OInt 1; OInt 2])) = RAbort.
 Proof. exact SchemaProofs.C12_refuted_choice. Qed.
 Print Assumptions C12_refuted_choice.
 
 Theorem C12_refuted_anystring :
   let c := CChoice [CBytes None 0; CText None 0] in
-  checkObject c (OText [97]) = true /\ recvw (Some c) (slice (OText [97])) = RAbort.
+  checkObject c (OText [97]) = true /\ recvw (Some c) (slice [] (OText [97])) = RAbort.
 Proof. exact SchemaProofs.C12_refuted_anystring. Qed.
 Print Assumptions C12_refuted_anystring.
 
 Theorem C12_refuted_optional :      (* oracle/optional-container-drops-connection *)
   let c := CList (COpt (CInt (Some 1024))) None 0 in
-  checkObject c (OList [OList [OInt 1]]) = true /\ recvw (Some c) (slice (OList [OList [OInt 1]])) = RAbort.
+  checkObject c (OList [OList [OInt 1]]) = true /\ recvw (Some c) (slice [] (OList [OList [OInt 1]])) = RAbort.
 Proof. exact SchemaProofs.C12_refuted_optional. Qed.
 Print Assumptions C12_refuted_optional.
 
 Theorem C12_refuted_any_huge_int :  (* oracle/any-rejects-huge-int *)
-  checkObject CAny (OInt (2 ^ 8001)) = true /\ recvw (Some CAny) (slice (OInt (2 ^ 8001))) = RViol.
+  checkObject CAny (OInt (2 ^ 8001)) = true /\ recvw (Some CAny) (slice [] (OInt (2 ^ 8001))) = RViol.
 Proof. exact SchemaProofs.C12_refuted_any_huge_int. Qed.
 Print Assumptions C12_refuted_any_huge_int.
